@@ -78,7 +78,7 @@ def exec_verdicts(tier, replay_text=None):
         "verdicts": v, "texts": texts,
         "tlc": [(r.generated, r.distinct) for r in gres + ress],
         "stats": {"programs": len(texts), "programs_analysed": sum(1 for e in evs if e["cfgok"]),
-                  "executions": 4 * sum(1 for e in evs if e["cfgok"]),
+                  "executions": 5 * sum(1 for e in evs if e["cfgok"]),
                   "machine_steps_longest_run_sum": sum(st["steps"] for st in stats),
                   "stop_reasons": stops,
                   "unobservable": sum(1 for e in evs if e["ev"] != "obs")},
